@@ -188,10 +188,29 @@ def lose (s : State) (i : Id) (release : Bool) : State :=
 
 /-! ### heartbeat loop body, service_discovery.go l.114-149 -/
 
-/-- l.117-132: `if leaderService != nil { Ping(); on error ReassignLeader() = Reconnect() then Register();
-    on error RemoveLeader() }` (`tempLeaderService != s.leaderService` cannot happen inside one atomic step).
-    After `RemoveLeader` NOTHING re-establishes `leaderService` except the next `OnBecomeFollower`. -/
+/-- l.117-133 of the current tree, i.e. AFTER commit 39ec43d "fix: keep the leader service after a failed re-register so
+    a follower retries on the next heartbeat" (finding F17, fixed): `if leaderService != nil { Ping(); on error
+    ReassignLeader() = Reconnect() then Register(); on error: the leader service is KEPT }` (only a service that was
+    replaced meanwhile is closed - `tempLeaderService != s.leaderService` cannot happen inside one atomic step).
+    A failed `Reconnect` leaves the client as it was (still broken); a `Reconnect` that worked has put a new connection
+    into the client even if `Register` failed afterwards.  The next body pings again, so a follower whose re-register
+    failed retries every period until the leader is reachable. -/
 def hbFollow (s : State) (i : Id) : State :=
+  match (s.insts i).leader with
+  | none => s
+  | some c =>
+    if !c.broken then s
+    else if !canDial s i c.target then s
+    else
+      let s1 := s.upd i fun x => { x with leader := some { c with broken := false } }
+      match registerAt s1 i c.target with
+      | some s2 => nf s2
+      | none => nf s1
+
+/-- the follower part of the heartbeat body BEFORE commit 39ec43d (finding F17): a failed `ReassignLeader` ended in
+    `RemoveLeader()`, and NOTHING re-established `leaderService` except the next `OnBecomeFollower` (a leader change).
+    Kept for the refutation `Props/C10HaRefute ha_orphan_follower_refuted`. -/
+def hbFollowOld (s : State) (i : Id) : State :=
   match (s.insts i).leader with
   | none => s
   | some c =>
@@ -219,6 +238,10 @@ def hbRemove (s : State) (i : Id) : State :=
 
 def hb (s : State) (i : Id) : State :=
   if !(s.insts i).alive then s else hbRemove (hbPing (hbFollow s i) i) i
+
+/-- the heartbeat body before commit 39ec43d -/
+def hbOld (s : State) (i : Id) : State :=
+  if !(s.insts i).alive then s else hbRemove (hbPing (hbFollowOld s i) i) i
 
 /-! ### monitor loop body, service_discovery.go l.164-183 -/
 
@@ -283,6 +306,16 @@ def step (s : State) : Action → State
 def run (s : State) : List Action → State
   | [] => s
   | a :: r => run (step s a) r
+
+/-- the LTS of the code BEFORE commit 39ec43d: the same, with the old follower part of the heartbeat body -/
+def stepOld (s : State) : Action → State
+  | .hb i => hbOld s i
+  | .hbFollow i => if (s.insts i).alive then hbFollowOld s i else s
+  | a => step s a
+
+def runOld (s : State) : List Action → State
+  | [] => s
+  | a :: r => runOld (stepOld s a) r
 
 /-- `n` instance slots, nothing started, no lease record -/
 def init (n : Nat) : State := { n := n }
